@@ -386,7 +386,14 @@ func non200IsError(c *core.Ctx) {
 				probs = append(probs, "a non-200 path returns nil (the response would be treated as valid)")
 				return
 			}
-			for _, call := range astx.Calls(ret.Results[0]) {
+			// the returned value, or what the returned variable last received on this path
+			var resExpr ast.Node = ret.Results[0]
+			if o := astx.ObjOf(info, astx.Unparen(ret.Results[0])); o != nil {
+				if rhs := s.LastAssigned(info, o); rhs != nil {
+					resExpr = rhs
+				}
+			}
+			for _, call := range astx.Calls(resExpr) {
 				if f := astx.CalleeFunc(info, call); f != nil && f.Name() == tableOf[proto] && len(call.Args) == 1 && astx.IsFieldNamed(info, call.Args[0], "StatusCode") {
 					usedTable = true
 				}
